@@ -59,6 +59,9 @@ type C14Payload struct {
 	// AsDefaults: the file is read with IniParser.ParseAsDefaults set (same
 	// oracles: on a fresh parser every entry is applied either way).
 	AsDefaults bool `json:"as_defaults,omitempty"`
+	// PriorLines > 0: the same IniParser has read another document (that many
+	// comment lines, nothing else) before; line numbers start afresh with every document.
+	PriorLines int  `json:"prior_lines,omitempty"`
 	Stores     []Op `json:"stores,omitempty"`
 	IniOpts    uint `json:"ini_opts,omitempty"`
 	CrashAfter int  `json:"crash_after,omitempty"`
@@ -71,7 +74,7 @@ func (propC14) ID() string { return "C14" }
 func c14Cfg() *DeclCfg {
 	return &DeclCfg{
 		Kinds: []string{"bool", "int", "int16", "uint", "uint8", "float64", "string", "string", "duration", "[]int", "[]string", "map[string]int", "map[string]string",
-			"map[int]string", "*int", "*string", "um", "func(string)", "func()", "[]bool", "vv"},
+			"map[int]string", "*int", "*string", "um", "func(string)", "func()", "[]bool", "vv", "level", "ulist"},
 		MinOpts: 1, MaxOpts: 4, MaxGroups: 2, MaxSub: 1, MaxCmds: 2, MaxDepth: 2, Exec: true,
 		Hidden: true, NoIni: true, IniName: true, Namespaces: true, Choices: true, Base: false, CapCmds: true, DupFields: true,
 		ParserOpts: []uint{0, optHelpFlag, optIgnoreUnknown, optIgnoreUnknown | optHelpFlag, optHelpFlag | optPassDoubleDash | optPrintErrors},
@@ -224,9 +227,9 @@ func genC14Structured(r *Rng, sc *Scenario) {
 		reps := 1
 		if isSliceKind(k) || isMapKind(k) {
 			reps = r.Range(1, 3)
-		} else if r.Chance(1, 4) {
-			reps = 2
 		}
+		// (a scalar key is given once: what a repeated scalar key means is not fixed
+		// by the statement)
 		sect := oi.Section
 		global := len(oi.CmdPath) == 0 && r.Chance(1, 5)
 		if global {
@@ -442,6 +445,20 @@ func genC14Fault(r *Rng, d *DeclSpec, p *C14Payload) *C14Fault {
 		f.More = r.Pick([]string{"zz = 1", "a = b", ""})
 	case "unknown-section-empty":
 		f.Text = r.Pick([]string{"[No Such Group]", "[nosuchcmd.Options]", "[Application Options.Nope]"})
+		if cs := d.allCmds(); len(cs) > 0 && r.Bool() {
+			// a name that merely starts like a command's name
+			c := cs[r.Intn(len(cs))]
+			near := strings.Join(c.Path, ".") + r.Pick([]string{"s", "2", "-", "x.y", "_"})
+			clash := false
+			for _, o := range cs {
+				if strings.Join(o.Path, ".") == near {
+					clash = true
+				}
+			}
+			if !clash {
+				f.Text = "[" + near + "]"
+			}
+		}
 	case "bad-choice", "func-with-arg", "unmarshal-fails":
 		// an entry the option itself rejects (choice list, parameterless callback,
 		// failing UnmarshalFlag): placed right after an entry of a suitable option
@@ -586,6 +603,7 @@ func (propC14) Gen(r *Rng, idx int, tier string) *Scenario {
 	default:
 		p.Source = "arbitrary"
 		sc.Family = "arbitrary"
+		sc.Decl.Reenter = sr.Chance(1, 3) // callbacks read another (empty) document through the same IniParser
 		p.Arbitrary = BStr(genArbitraryIni(r.Fork("arb"), sc.Decl))
 	}
 	cr := r.Fork("chunks")
@@ -594,6 +612,9 @@ func (propC14) Gen(r *Rng, idx int, tier string) *Scenario {
 	p.ViaFile = cr.Chance(1, 3)
 	p.LateIgnore = p.Source == "structured" && cr.Chance(1, 6)
 	p.AsDefaults = cr.Chance(1, 4)
+	if cr.Chance(1, 6) && !p.LateIgnore {
+		p.PriorLines = cr.Range(1, 9)
+	}
 	if cr.Chance(1, 3) && len(text) > 0 {
 		p.ErrAt = cr.Range(1, len(text))
 		p.ErrKind = cr.Pick([]string{"EIO", "EINTR", "UNEXPECTED_EOF", "EACCES"})
@@ -785,6 +806,9 @@ func c14Read(sc *Scenario, data string, chunks []simrt.ReadStep, rest int, viaFi
 		op.Data = BStr(data)
 	}
 	s2.Ops = []Op{op}
+	if sc.C14 != nil && sc.C14.PriorLines > 0 {
+		s2.Ops = []Op{{Kind: "iniread", Data: BStr(strings.Repeat("; an earlier document\n", sc.C14.PriorLines))}, op}
+	}
 	if sc.C14 != nil && sc.C14.LateIgnore {
 		d2 := *sc.Decl
 		d2.Options ^= optIgnoreUnknown
@@ -1150,6 +1174,7 @@ func (propC14) Reductions(sc *Scenario) []func(*Scenario) bool {
 		func(s *Scenario) bool { s.C14.ViaFile = false; return true },
 		func(s *Scenario) bool { s.C14.LateIgnore = false; return true },
 		func(s *Scenario) bool { s.C14.AsDefaults = false; return true },
+		func(s *Scenario) bool { s.C14.PriorLines = 0; return true },
 		func(s *Scenario) bool { s.C14.TailNoise = nil; return true },
 		func(s *Scenario) bool { s.C14.NoFinalEOL = false; return true },
 		func(s *Scenario) bool {
